@@ -35,12 +35,17 @@ type probe struct {
 func sel(abiData []byte) []byte { return append(append([]byte{}, abiData[:4]...), 0, 0, 0, 0) }
 
 func methodId(c types.Address, name string) []byte {
-	for _, e := range embedded.VerifMethodTables()[3] {
-		if e.Contract == c && e.Name == name {
-			return append(append([]byte{}, e.Selector...), 0, 0, 0, 0)
+	// the selector is a fact of the ABI, not of one table: look in every table, newest first (a change that drops
+	// the method from one table must show up as an oracle failure of the history, not as a crash of the harness)
+	tabs := embedded.VerifMethodTables()
+	for t := len(tabs) - 1; t >= 0; t-- {
+		for _, e := range tabs[t] {
+			if e.Contract == c && e.Name == name && e.Selector != nil {
+				return append(append([]byte{}, e.Selector...), 0, 0, 0, 0)
+			}
 		}
 	}
-	panic("probe method not in the htlc table: " + name)
+	panic("probe method in no method table: " + name)
 }
 
 func probes() []probe {
